@@ -10,7 +10,7 @@ request no collection holds two objects with one UID, no calendar / address book
 and the offline verifier succeeds.
 """
 import davsim
-from common import disk_snapshot
+from common import App, disk_snapshot
 
 PROP_FILES = ["Props/C15.lean", "Props/C15Inv.lean"]
 LEVEL = "proof"
@@ -78,6 +78,11 @@ def run_history(ctx, rng, length, hid):
                 if st >= 400 and (no_home(after_dump) != no_home(before_dump) or
                                   (home_before and [e for e in after_dump if e["path"] == ["u"]] != home_before)):
                     ctx.violation("request answered %d changed the store" % st, {"history": reqs}, "unchanged", "changed")
+                if st >= 400:
+                    after_disk = disk_snapshot(sim.app.folder)
+                    chg = {k for k in set(before_disk) | set(after_disk) if before_disk.get(k) != after_disk.get(k)} - {"u"}
+                    if chg:
+                        ctx.violation("request answered %d changed files of the collection tree: %s" % (st, sorted(chg)[:4]), {"history": reqs})
                 if st < 400 and after_dump != before_dump and sim.sid is not None:
                     # a success outside the vocabulary desynchronises model and implementation: end this history
                     return
@@ -136,12 +141,61 @@ def witnesses(ctx):
         sim.close()
 
 
+NONASCII = ("BEGIN:VCALENDAR\r\nVERSION:2.0\r\nPRODID:x\r\nBEGIN:VEVENT\r\nUID:%s\r\nDTSTAMP:20240101T000000Z\r\nDTSTART:20240102T100000Z\r\n"
+            "SUMMARY:caf\u00e9 \u2603 %s\r\nEND:VEVENT\r\nEND:VCALENDAR\r\n")
+ASCII_EV = NONASCII.replace("caf\u00e9 \u2603", "plain")
+
+
+def encoding_level(ctx):
+    """a storage encoding that cannot represent an uploaded object ([encoding] stock = ascii / latin-1): the request fails and must
+    leave nothing behind — neither under a new name nor over an existing one, for single objects and whole collections"""
+    rng = ctx.rng("encoding")
+    for rnd in range(ctx.n(6, 200)):
+        stock = rng.choice(["ascii", "ascii", "latin-1", "utf-8"])
+        with App({"auth": {"type": "none"}, "encoding": {"stock": stock}}) as app:
+            app.request("MKCALENDAR", "/u/c/", login="u:pw")
+            app.request("PUT", "/u/c/old.ics", ASCII_EV % ("old", "0"), login="u:pw", CONTENT_TYPE="text/calendar")
+            hist = []
+            for i in range(rng.randint(2, 6)):
+                k = rng.random()
+                if k < 0.4:
+                    r = ("PUT", "/u/c/new%d.ics" % i, NONASCII % ("n%d" % i, i))
+                elif k < 0.6:
+                    r = ("PUT", "/u/c/old.ics", NONASCII % ("old", i))
+                elif k < 0.8:
+                    r = ("PUT", "/u/w%d/" % i, "BEGIN:VCALENDAR\r\nVERSION:2.0\r\nPRODID:x\r\n" +
+                         "".join((NONASCII if j == 1 else ASCII_EV).split("PRODID:x\r\n")[1].rsplit("END:VCALENDAR", 1)[0] % ("w%d_%d" % (i, j), j)
+                                 for j in range(3)) + "END:VCALENDAR\r\n")
+                else:
+                    r = ("PUT", "/u/c/new%d.ics" % i, ASCII_EV % ("a%d" % i, i))
+                before = disk_snapshot(app.folder)
+                st, _, _ = app.request(r[0], r[1], r[2], login="u:pw", CONTENT_TYPE="text/calendar")
+                after = disk_snapshot(app.folder)
+                hist.append({"method": r[0], "path": r[1], "non_ascii": "caf" in r[2], "status": st})
+                case = {"stock_encoding": stock, "history": list(hist)}
+                ctx.case("encoding:%s:%s" % (stock, "error" if st >= 400 else "ok"), sample=case, key=[rnd, i], nontrivial=st >= 400)
+                if st >= 400:
+                    chg = {k2 for k2 in set(before) | set(after) if before.get(k2) != after.get(k2)}
+                    if chg:
+                        ctx.violation("request answered %d changed files of the collection tree: %s" % (st, sorted(chg)[:4]), case)
+                st2, _, _ = app.request("PROPFIND", "/u/c/", login="u:pw", HTTP_DEPTH="1")
+                if st2 != 207:
+                    ctx.violation("after a request answered %d the calendar can no longer be listed (PROPFIND %d)" % (st, st2), case)
+            try:
+                ok = app.storage.verify()
+            except Exception:
+                ok = False
+            if not ok:
+                ctx.violation("storage verifier fails after the history", case)
+
+
 def run(ctx):
     ctx.extra["rule"] = ("histories of 5-40 requests, a quarter of them outside the valid vocabulary (broken RRULE, missing UID, several objects, "
                          "mixed types per UID, truncated bodies, malformed XML, unknown resource types), the rest from the C01 generator (wrong "
                          "component type, duplicate UIDs, MOVE onto conflicts, bad whole-collection uploads); non-trivial = answered with an error")
     ctx.trusted += ["harness/davsim.py", "vobject as the judge of 'valid for the collection type' inside verify()"]
     witnesses(ctx)
+    encoding_level(ctx)
     rng = ctx.rng("hist")
     for h in range(ctx.n(50, 4000)):
         run_history(ctx, rng, rng.randint(5, 40), h)
